@@ -1,7 +1,7 @@
 (* Route/Properties.v — property theorems of C32 only; proofs live in Proofs.v. *)
 From Coq Require Import Permutation.
 From Common Require Import Base.
-From Route Require Import Model Proofs.
+From Route Require Import Model Proofs Enum.
 Open Scope N_scope.
 
 (* The full statement of the property: FindRoute's answer never depends on the iteration order. *)
@@ -51,6 +51,24 @@ Theorem C32_old_refuted :
   exists T T' m, Permutation T T' /\ find_route_old T' m [] <> find_route_old T m [].
 Proof. exact old_refuted. Qed.
 
+(* A verified finite enumeration of request classes (Enum.v): every segment of a request path is
+   abstracted to itself when it is empty or one of the literal segments occurring at that position in
+   some endpoint, else to FRESH; methods to themselves when some route names them, else FRESHM;
+   prefixes that at most one route per method class can still match are not extended; beyond the
+   saturation depth nsat T nothing changes any more.  certificate_f T is a boolean computed from the
+   table alone; when it is true EVERY request (any method string, any path string) is decided at a
+   stage with exactly one qualifying candidate ... *)
+Theorem C32_certificate_sound :
+  forall T, certificate_f T = true ->
+    forall m p, det (cands T (upper m) (split (norm_path p))) (split (norm_path p)) = true.
+Proof. exact certificate_f_sound. Qed.
+
+(* ... hence FindRoute on that table is a function of method and path only, for all requests. *)
+Theorem C32_certificate_deterministic :
+  forall T, certificate_f T = true ->
+    forall T' method path, Permutation T T' -> find_route T' method path = find_route T method path.
+Proof. exact certificate_f_deterministic. Qed.
+
 (* Fewer variables are preferred: unless a candidate is spelled exactly like the path, the chosen
    route has no more "{{" variables than any other candidate (any order, ambiguous or not). *)
 Theorem C32_fewest_vars :
@@ -76,3 +94,12 @@ Example C32_nonvacuous :
   run [] [Reg (mkRoute s_var sGET); Look sGET s_sql; Reg (mkRoute s_sql ANY); Look sGET s_sql]
     = [Found (mkRoute s_var sGET); Found (mkRoute s_sql ANY)].
 Proof. vm_compute. repeat split; reflexivity. Qed.
+
+(* non-vacuity: a table with overlapping routes (literal vs variable, glob) that passes, and the
+   tie table of C32_refuted that does not *)
+Example C32_certificate_nonvacuous :
+  certificate_f [mkRoute s_var2 sGET; mkRoute s_var sGET; mkRoute s_sql ANY;
+                 mkRoute [47;97;47;123;123;103;46;46;46;125;125] sGET] = true /\
+  certificate_f T_tie = false.
+Proof. vm_compute. split; reflexivity. Qed.
+
